@@ -287,6 +287,11 @@ func enumWords(env engine.Env, yield func(Query) bool) {
 type Get struct {
 	Target string `json:"target"`
 	Query  bool   `json:"query"` // use ParseQuery instead of ParseBasic
+	// Verb: the HTTP method ("" = GET). AsForm: the query travels as an
+	// urlencoded body instead (both parsers read http.Request.ParseForm, which
+	// takes parameters from the body of POST, PUT and PATCH requests).
+	Verb   string `json:"verb,omitempty"`
+	AsForm bool   `json:"as_form,omitempty"`
 }
 
 func getterMux(echoed *string) handler.Map {
@@ -334,8 +339,19 @@ func runGet(_ *testing.T, g Get) (v engine.Verdict) {
 	echoed := ""
 	gt := jhttp.NewGetter(getterMux(&echoed), opts)
 	defer gt.Close()
-	req := httptest.NewRequest("GET", "/", nil)
+	verb := g.Verb
+	if verb == "" {
+		verb = "GET"
+	}
+	req := httptest.NewRequest(verb, "/", nil)
 	req.URL = u
+	if g.AsForm {
+		bu := *u
+		bu.RawQuery = ""
+		req = httptest.NewRequest(verb, "/", strings.NewReader(u.RawQuery))
+		req.Header.Set("Content-Type", "application/x-www-form-urlencoded")
+		req.URL = &bu
+	}
 	rec := httptest.NewRecorder()
 	defer func() {
 		if p := recover(); p != nil {
@@ -405,6 +421,11 @@ func genGet(t *rapid.T) Get {
 	g := Get{Target: path, Query: rapid.Bool().Draw(t, "useparsequery")}
 	if q.Query != "" {
 		g.Target += "?" + q.Query
+	}
+	// "A Getter maps each HTTP request to one JSON-RPC call": whatever its method
+	g.Verb = rapid.SampledFrom([]string{"", "", "", "POST", "PUT", "PATCH", "DELETE", "HEAD"}).Draw(t, "verb")
+	if g.Verb == "POST" || g.Verb == "PUT" || g.Verb == "PATCH" {
+		g.AsForm = rapid.Bool().Draw(t, "asform")
 	}
 	return g
 }
